@@ -49,6 +49,9 @@ def _vacation_variants():
         out.append(("vacation[%s]" % ",".join(t[0] for t in tags), lambda V, flat=flat: ("vacation",) + flat + (V,)))
     # one permuted order, and value holes in the tag parameters
     out.append(("vacation[permuted]", lambda V: ("vacation", ":mime", ":handle", "h", ":subject", "S", V)))
+    # numeric boundary values (0 is legal for :seconds, RFC 6131) (action numbers are ints in the factory's API)
+    out.append(("vacation[:days=0]", lambda V: ("vacation", ":days", 0, V)))
+    out.append(("vacation[:seconds=0]", lambda V: ("vacation", ":subject", "S", ":seconds", 0, V)))
     out.append(("vacation[subject-hole]", lambda V: ("vacation", ":subject", V, "reason")))
     out.append(("vacation[from-hole]", lambda V: ("vacation", ":from", V, "reason")))
     out.append(("vacation[handle-hole]", lambda V: ("vacation", ":handle", V, "reason")))
